@@ -400,6 +400,12 @@ func (e *Enc) havocDesignator(m Clause, env map[string]envEntry, st, old *State,
 			row := sIte("(= "+d.slice.L[slRef]+" 0)", sSel(e.heapGet(st, a.HK), d.slice.L[slRef]), fresh)
 			e.heapSet(st, a.HK, "(store "+e.heapGet(st, a.HK)+" "+d.slice.L[slRef]+" "+row+")")
 		}
+	case "anyrow":
+		// every array of this element type: replace the whole heap component
+		elemPtr := &Val{T: types.NewPointer(d.T), L: []string{"0", "0"}, Root: d.T}
+		for _, a := range e.accesses(elemPtr, d.T) {
+			e.heapSet(st, a.HK, e.declare(e.freshName("modany"), a.HK.Sort))
+		}
 	case "map":
 		mt := d.T.Underlying().(*types.Map)
 		if mapKeyOK(mt) {
@@ -521,6 +527,24 @@ func (e *Enc) frameCheckRef(addr *Val, T types.Type, pos token.Pos, st *State) {
 			if covered {
 				allowed = append(allowed, sEq(addr.L[0], d.slice.L[slRef]))
 			}
+		case "anyrow":
+			elemPtr := &Val{T: types.NewPointer(d.T), L: []string{"0", "0"}, Root: d.T}
+			dacc := e.accesses(elemPtr, d.T)
+			covered := len(accs) > 0
+			for _, a := range accs {
+				found := false
+				for _, b := range dacc {
+					if a.HK.Key == b.HK.Key {
+						found = true
+					}
+				}
+				if !found {
+					covered = false
+				}
+			}
+			if covered {
+				allowed = append(allowed, "true")
+			}
 		}
 	}
 	e.oblige("frame", "", sOr(allowed...), pos, "store target is fresh or listed in modifies")
@@ -549,6 +573,17 @@ func (e *Enc) frameCheckCall(callee *Contract, env map[string]envEntry, old *Sta
 			e.frameNilOK = false
 		case "map":
 			e.frameCheckRoot(typeKey(d.T.Underlying()), d.ref, pos, old)
+		case "anyrow":
+			ok := false
+			for _, mm := range e.ctr.Modifies {
+				dd := e.evalDesignator(mm.E, &specCtx{env: e.paramEnv(), st: e.entry, old: e.entry, pkg: e.ctr.Pkg})
+				if dd != nil && dd.kind == "anyrow" && typeKey(dd.T) == typeKey(d.T) {
+					ok = true
+				}
+			}
+			if !ok {
+				e.oblige("frame", "", "false", pos, "callee modifies anyrow("+typeKey(d.T)+"), which this function's modifies clause does not list")
+			}
 		}
 	}
 }
